@@ -1,8 +1,9 @@
 (* C13 driver.  One s-expression per line; strings are lists of code points.  Stateful: schema files are
    registered with (file ...), loaded with (load H ...) and then queried by handle.
-     (ns T) (pfx T) (setp T) (fmt T) (chars F T) (pvl (T..)) (clear)
+     (ns T) (pfx T) (setp FIXED T) (fmt FIXED T) (chars F T) (pvl (T..)) (clear)     FIXED = 0|1: code before/after
+     the repairs of C13-F2/F3/F4
      (file KEY LIB VER WSTD UNMERGED ELEMDOM ((LONG ((ATTR (VAL..))..))..))
-     (load H (T..)) (resolve H T) (getent H NAME NS) (twa H required|unique) (grp H (T..)) (cap H T) (flag H)
+     (load FIXED H (T..)) (resolve H T) (getent H NAME NS) (twa H required|unique) (grp H (T..)) (cap FIXED H T) (flag H)
      (entries H I) (dups H I) (contains HB HL) *)
 let exn_sx (e : exn) : sx = A (match e with
   | TypeError -> "TypeError" | KeyError -> "KeyError" | AttributeError -> "AttributeError"
@@ -45,11 +46,11 @@ let () = main_loop (fun x ->
   match x with
   | L [A "ns"; t] -> str_sx (get_schema_namespace (sx_str t))
   | L [A "pfx"; t] -> A (string_of_int (List.length (x_prefix_issues (get_schema_namespace (sx_str t)))))
-  | L [A "setp"; t] ->
-      (match x_set_schema_prefix (sx_str t) with
+  | L [A "setp"; f; t] ->
+      (match x_set_schema_prefix (sx_bool f) (sx_str t) with
        | Ok s -> L [A "ok"; str_sx s]
        | Exn e -> L [A "exn"; exn_sx e])
-  | L [A "fmt"; t] -> nat_sx (fmt_count (sx_str t))
+  | L [A "fmt"; f; t] -> A (string_of_int (List.length (x_check_tag_formatting (sx_bool f) (sx_str t))))
   | L [A "chars"; f; t] -> L (List.map code_sx (x_char_issues (sx_bool f) (sx_str t)))
   | L [A "pvl"; L ts] ->
       (match parse_version_list (List.map sx_str ts) with
@@ -66,8 +67,8 @@ let () = main_loop (fun x ->
       let k = sx_str key in
       the_repo := (k, f) :: (List.filter (fun (k', _) -> k' <> k) !the_repo);
       L [A "ok"; A (string_of_int (List.length nodes))]
-  | L [A "load"; A h; L ts] ->
-      (match x_load_schema_version !the_repo (List.map sx_str ts) with
+  | L [A "load"; f; A h; L ts] ->
+      (match x_load_schema_version (sx_bool f) !the_repo (List.map sx_str ts) with
        | LOk ls ->
            Hashtbl.replace handles h ls;
            L [A "ok"; L (List.map (fun l ->
@@ -90,9 +91,9 @@ let () = main_loop (fun x ->
       let c = cfg_of (get_handle h) in
       L (List.map str_sx (c.c_twa (if a = "required" then Required else Unique)))
   | L [A "grp"; A h; L ts] -> L (List.map code_sx (x_group_rules (get_handle h) (List.map sx_str ts)))
-  | L [A "cap"; A h; t] ->
+  | L [A "cap"; f; A h; t] ->
       let (r, _) = x_resolve (get_handle h) (sx_str t) in
-      A (string_of_int (List.length (x_check_capitalization r)))
+      A (string_of_int (List.length (x_check_capitalization (sx_bool f) r)))
   | L [A "flag"; A h] -> bool_sx (cfg_of (get_handle h)).c_flag
   | L [A "entries"; A h; i] ->
       let l = List.nth (get_handle h) (sx_int i) in
